@@ -7,6 +7,7 @@ CONSTANTS
   Plus = "min"
   Times = "add"
   LeafKind = "signed"
+  MaxParamT = 6
   Tag = "mk_minadd"
 INVARIANT Inv_FoldInputs
 INVARIANT Emit
